@@ -1,7 +1,8 @@
 import Revm.Util.Hex
 import Revm.Model.Collision
-/-! `collision <kind> <spec_u8> <layer> <code 0|1> <nonce hex> <storage 0|1> <balance hex>`
-→ `<class> allgas=<0|1> changed=<0|1>`; the harness transfers value 1 and probes slot 1. -/
+/-! `collision <kind> <spec_u8> <layer> <code 0|1> <nonce hex> <storage 0|1> <balance hex> [<warmth>]`
+→ `<class> allgas=<0|1> changed=<0|1>`; the harness transfers value 1 and probes slot 1.
+`warmth` (default `cold`) = how the harness makes the target warm before the creation reaches it. -/
 namespace Driver.Collision
 open Revm Revm.Hex Revm.Model.Db Revm.Model.Collision
 
@@ -34,7 +35,26 @@ def mkDb (layer : String) (info : Option Info) (storage : Bool) : Option Db :=
     some (.cache (.empty (fun _ => 0)) c1)
   | _ => none
 
-def handle (toks : List String) : String :=
+/-- the harness' ways of making the target warm: access-list key 1 is the stored slot, key 2 a zero one -/
+def parseWarmth? : String → Option Warmth
+  | "cold" => some .coldFirstTouch
+  | "al" => some (.accessList [])
+  | "alkey" => some (.accessList [1])
+  | "alkey0" => some (.accessList [2])
+  | "balance" => some .opcodeLoad
+  | "extcodesize" => some .opcodeLoad
+  | "call" => some .called
+  | "subrevert" => some .revertedCold
+  | "retry" => some .retried
+  | _ => none
+
+/-- opcodes need a creator contract; the same CREATE2 address twice needs CREATE2 -/
+def warmthApplies (kind w : String) : Bool :=
+  if w = "cold" || w = "al" || w = "alkey" || w = "alkey0" then true
+  else if w = "retry" then kind = "create2"
+  else kind != "tx"
+
+def handleW (toks : List String) (warmth : String) : String :=
   match toks with
   | [kind, spec, layer, code, nonce, storage, bal] =>
     match spec.toNat?, parseBool? code, parseHex? nonce, parseBool? storage, parseHex? bal with
@@ -43,20 +63,34 @@ def handle (toks : List String) : String :=
       if spec > 19 && spec != 255 then "bad-op" else
       if kind = "create2" && spec < 7 then "bad-op" else
       if nonce ≥ U64 || bal ≥ W then "bad-op" else
+      match parseWarmth? warmth with
+      | none => "bad-op"
+      | some w =>
+      if !warmthApplies kind warmth then "bad-op" else
+      -- a transaction with an access list is rejected before Berlin (`AccessListNotSupported`)
+      if (warmth = "al" || warmth = "alkey" || warmth = "alkey0") && spec < 11 && (mkDb layer none false).isSome then "evm-error" else
       let info : Option Info :=
         if !code && nonce = 0 && !storage && bal = 0 then none
         else some ⟨bal, nonce, if code then someCodeHash else KECCAK_EMPTY, none⟩
       match mkDb layer info storage with
       | none => "bad-op"
       | some db =>
-        -- the journal loads the target through the same database
-        let loaded : Target := match (db.query (.basic targetAddr)).2 with
-          | .info (some i) => { codeHash := i.codeHash, nonce := i.nonce, balance := i.balance }
-          | _ => { codeHash := KECCAK_EMPTY, nonce := 0, balance := 0 }
-        let o := makeCreateFrame db targetAddr loaded 1 1000000 (spec ≥ 5)
+        -- the journal loads the target through the same database, in the way `warmth` says
+        let loaded : Target := loadedTarget db targetAddr w
+        let o := makeCreateFrameW db targetAddr w 1 1000000 (spec ≥ 5)
+        match o.result, warmth with
+        -- `retry`: the harness' init code is INVALID, so a frame that is made fails, takes all gas and is reverted
+        | .frame, "retry" => "other:InvalidFEOpcode allgas=1 changed=0"
+        | _, _ =>
         let cls := match o.result with
           | .collision => "collision" | .overflowPayment => "other:OverflowPayment" | .frame => "created"
         s!"{cls} allgas={boolStr (o.gasLost == some 1000000)} changed={boolStr (o.target != loaded)}"
     | _, _, _, _, _ => "bad-op"
+  | _ => "bad-op"
+
+def handle (toks : List String) : String :=
+  match toks with
+  | [kind, spec, layer, code, nonce, storage, bal] => handleW [kind, spec, layer, code, nonce, storage, bal] "cold"
+  | [kind, spec, layer, code, nonce, storage, bal, warmth] => handleW [kind, spec, layer, code, nonce, storage, bal] warmth
   | _ => "bad-op"
 end Driver.Collision
